@@ -212,6 +212,10 @@ def quote_span(ctx, lexpr):
             for bi, b in enumerate(f.blocks):
                 if any(st["k"] == "assign" and st["rv"]["k"] == "agg" and st["rv"].get("closure") == g.path for st in b["stmts"]):
                     rec.append(bi)
+    # ... or the function itself, handed over as a function value (`self.nested(Self::next_datum)`)
+    for bi, t in f.calls():
+        if any(a.get("c") == "const" and (a.get("fn") or "").endswith("Parser::<R>::next_datum") for a in t["args"]):
+            rec.append(bi)
     if not qcalls or not rec:
         r.anchor_missing("Datum::quotation call / recursive next_datum call in next_datum")
         return
